@@ -28,6 +28,16 @@ Part 1   random trees through the compiled callable (all operators, both operand
          objects in the same process and compared with their own eager value: two different expressions
          must never be confused with one another.
 Part 1b  bare fields as conditions (truth / length path of normalize_raw_condition_into_a_callable).
+Part 1c  TABLES: chooses in every form (dict, keyword, list, tuple, positional) and if_true_then_else (list, tuple,
+         positional) over the space of key types (int, negative int, bool, 0/False and 1/True/1.0 coincidences, float,
+         bytes, str, b'ab' and 'ab' both present, tuples, None, all mixed), selector types (int / signed / bit
+         fields, comparisons, floats, byte strings of Data fields and their slices, optional fields that are None, a
+         list, and the LABEL picked by an inner table: multi-level tables) and option values (constants of every type,
+         fields, sub-expressions, nested tables). Oracle: `{..}[sel]` / `[..][sel]` / `(..)[sel]` / `x if c else y`
+         evaluated eagerly (KeyError / IndexError / TypeError alike). The keyword form means {b'<name>': ..}[sel] as far
+         as the docs show it (a byte-string selector); a TEXT selector against keyword names is counted, not judged.
+         Keyword names that collide with parameter names of bisturi's own functions (F20: the keyword A).
+Part 2c  the same tables as a Data size (multi-level; a missing key must surface as PacketError) and as a when-condition.
 Part 2   integer-valued trees placed as `Data(expr)`, `.repeated(expr)`, `.when(expr)`,
          `.repeated(2, when=expr)` and `Ref(expr.chooses(Data(1), ..., Data(4)))` in freshly defined classes,
          observed through Packet.unpack; bare fields additionally as `Data(2).at(field)` (Move takes a field
@@ -36,6 +46,7 @@ Part 2   integer-valued trees placed as `Data(expr)`, `.repeated(expr)`, `.when(
 import hashlib
 import os
 import sys
+import time
 
 from ..common import rng_for
 
@@ -84,9 +95,20 @@ RULE = {
              "then valid, then the first again), half of the classes carrying a sibling expression as a second field y after x; "
              "a field zz tracked by the described field dz is declared AFTER x / y, so dz's descriptor cannot compute while x is parsed; "
              "plus bare-field placements (when for all 19 fields; size, count, Ref selector, Move position for 7 small ones). "
+             "Part 1c: 12000 seeded table trees cycling over 8 forms (dict x3, keyword, list, tuple, positional, "
+             "if_true_then_else) x 14 key-type mixes (int, str, negative, bytes, bool, b'x'+'x' twins, bool/int coincidences, "
+             "float, tuple, None, mixed) x selector kinds chosen to match AND to mismatch the key type (fields, comparisons, "
+             "floats, Data bytes and slices, optional fields, a list, labels of type str / bytes / tuple / None / int / bool "
+             "picked by an inner table in any form) x option values (38% constants of 10 types, fields, random sub-expressions, "
+             "options that raise on some inputs, operators applied to text labels, nested tables), nesting 1..2 below the top "
+             "table, 3 code-generation option sets, compiled once and played on 3 inputs (raising first, first input again); "
+             "keyword names A, B, C, self, cls, op, .. as compiled expression and as Data size in a class body; "
+             "Part 2c: 150 fresh classes (100 tables as Data size over 10 key-type mixes x 6 forms, 50 tables / "
+             "if_true_then_else of any value type as when-condition) x 6 inputs. "
              "A case is one tree (non-trivial: has at least one operator node); distinct = distinct expression sources.",
     "thorough": "As quick with ~1M trees (62500 per shard x 16), depth 1..6, histories over 3 inputs, siblings for 30%; "
-                "Part 2: 350 trees x 5 placements per shard (28000 classes) x 6 inputs, siblings in half of them.",
+                "Part 2: 350 trees x 5 placements per shard (28000 classes) x 6 inputs, siblings in half of them. "
+                "Part 1c: 30000 table trees per shard (480000), Part 2c: 300 classes per shard, as in quick.",
 }
 ASSUMPTIONS = [
     "eager reference = strict left-to-right evaluation: selector first, then every option of chooses / "
@@ -113,6 +135,19 @@ ASSUMPTIONS = [
     "bare fields",
     "if_true_then_else is exercised with exactly two alternatives (list, tuple or positional); dict/keyword forms "
     "of if_true_then_else have no Python meaning fixed by the property",
+    "eager meaning of the forms of x.chooses: ({k: v, ..}) -> {k: v, ..}[x]; ([v, ..]) -> [v, ..][x]; ((v, ..)) and (v, w, ..) "
+    "-> (v, ..)[x]; (k=v, ..) -> {b'k': v, ..}[x] - the keyword form is a library convention: the docs (reference/15) show "
+    "keyword names selected by a BYTE-string field (size_type.chooses(small=2, ..) with size_type == b'small') and call it a "
+    "shortcut for an explicit dictionary when the names are valid Python names; it is judged for every selector that is not a "
+    "text (str) value - bytes hit or miss, int / None / tuple / list miss or are unhashable under either reading - and only "
+    "counted for text selectors (extra p1c_kw_text_selector_library_outcomes)",
+    "keys of a dict display that are equal (1 / True / 1.0, (1,) / (True,)) collapse in Python before bisturi is called "
+    "(the earlier value object is dropped, the later one moves to the earlier position); the generator gives such keys "
+    "constant values so that the collapse is not observable, the coincidence of the SELECTOR with a key of another type "
+    "(True selects the key 1) is judged",
+    "not judged, only observed (coverage set p1c_unjudged_forms_observed): chooses([]) / chooses({}) (rejected when written), a "
+    "single positional argument that is neither list, tuple nor dict (the docs demand one of those), keyword names that are "
+    "not ascii, if_true_then_else with other than two alternatives or in dict / keyword form",
 ]
 
 # ------------------------------------------------------------------------------------------
@@ -307,6 +342,10 @@ SWAP_SAFE = 1 << 20
 
 class Skip(Exception):
     pass
+
+
+class Unjudged(Skip):
+    """The eager meaning of this evaluation is not fixed by the statement nor by the docs."""
 
 
 def node_class(n):
@@ -716,6 +755,10 @@ def walk(n, vals):
             table = {}
             for k, o in n[3]:
                 table[k] = walk(o, vals)
+            if n[1] == "kw" and isinstance(sel, str):
+                # the docs show keyword names matched by a BYTE-string selector (size_type.chooses(small=2, ..) with
+                # size_type == b'small'); whether a text selector matches a keyword name is stated nowhere
+                raise Unjudged("kw-text-selector")
             return table[sel]
         got = [walk(o, vals) for o in n[3]]
         if n[1] != "list":
@@ -1671,6 +1714,796 @@ def part2(run, rng, ntrees, maxdepth, ninputs, tag, sibling_share):
 
 
 # ------------------------------------------------------------------------------------------
+# Part 1c / 2c: the space of chooses / if_true_then_else forms, key types, selector types and option values
+# ------------------------------------------------------------------------------------------
+STR_POOL = ("a", "b", "ab", "ba", "aa", "bb", "", "abab", "short", "long")
+BYTES_POOL = tuple(s.encode("ascii") for s in STR_POOL)
+TUPLE_POOL = ((), (0,), (1,), (1, 2), (0, 1), ("a",), (b"a",), ("a", 1), (None,), (True,), ("ab", b"ab"))
+VALUE_CONSTS = {
+    "int": (0, 1, 2, 3, 4, 7, 255, 1000),
+    "negint": (-1, -2, -300),
+    "bool": (True, False),
+    "float": (0.5, 2.0, -1.5, 0.0),
+    "bytes": BYTES_POOL,
+    "str": STR_POOL,
+    "none": (None,),
+    "tuple": TUPLE_POOL + ((1, (2, 3)),),
+    "list": ([], [0], [1, 2], ["a", b"a"], [None]),
+    "dict": ({}, {1: 2}, {"a": b"a"}, {b"k": None}),
+}
+CONST_KINDS = ("int", "int", "negint", "bool", "float", "bytes", "bytes", "str", "str", "str", "none", "tuple", "list", "dict")
+# keyword names: identifiers. 'A' (the name of the first parameter of bisturi's nary closure) is probed apart.
+KW_POOL = ("a", "b", "ab", "ba", "aa", "bb", "abab", "short", "long", "k0", "zz", "B", "C", "self", "_")
+TABLE_FORMS = ("dict", "dict", "dict", "kw", "list", "tuple", "pos", "ite")
+KEYKINDS = ("int", "str", "negint", "bytes", "bool", "twins", "boolint", "str", "float", "tuple", "none", "twins", "mixed", "bytes")
+SELECTORS_FOR = {
+    "int": ("int", "int", "int", "bool", "float", "byteval", "optint", "label:int", "label:int", "negint", "bytes"),
+    "negint": ("negint", "negint", "negint", "int", "label:int"),
+    "bool": ("bool", "bool", "bool", "int", "label:bool", "float"),
+    "boolint": ("bool", "bool", "int", "int", "label:int", "label:bool", "float"),
+    "float": ("float", "float", "int", "int", "bool", "label:float"),
+    "bytes": ("bytes", "bytes", "bytes", "optbytes", "label:bytes", "label:bytes", "label:str", "int"),
+    "str": ("label:str", "label:str", "label:str", "label:str", "bytes", "bytes", "label:bytes", "optbytes"),
+    "twins": ("label:str", "label:bytes", "bytes", "bytes", "label:twins", "label:twins"),
+    "tuple": ("label:tuple", "label:tuple", "label:tuple", "list", "int", "label:str"),
+    "none": ("optint", "optint", "optbytes", "optbytes", "label:none", "label:none", "label:none", "int"),
+    "mixed": ("int", "bool", "float", "bytes", "bytes", "optint", "optbytes", "label:str", "label:bytes", "label:tuple",
+              "label:none", "label:int", "label:twins", "list", "negint", "byteval"),
+    "seq": ("int", "int", "int", "int", "negint", "negint", "bool", "bool", "float", "bytes", "optint", "label:int", "label:int",
+            "label:str", "label:none", "label:bool", "list", "byteval"),
+    "kw": ("bytes", "bytes", "bytes", "bytes", "optbytes", "label:bytes", "label:bytes", "label:str", "label:twins", "int"),
+    "cond": ("int", "bool", "bool", "float", "bytes", "bytes", "optint", "optbytes", "label:str", "label:bytes", "label:tuple",
+             "label:none", "label:int", "list", "negint"),
+}
+LABEL_POOLS = {
+    "int": (0, 1, 2, 3, 4, 5, 7, -1, 255),
+    "bool": (True, False, 1, 0),
+    "float": (0.0, 0.5, 1.0, 2.0),
+    "bytes": BYTES_POOL,
+    "str": STR_POOL,
+    "twins": STR_POOL[:6] + BYTES_POOL[:6],
+    "tuple": TUPLE_POOL,
+    "none": (None, None, 0, b"", ""),
+}
+# option values that raise on some inputs (so that exceptions raised by options NOT selected are compared)
+MAY_RAISE = (
+    ("b", "floordiv", ("k", 7), ("f", "n")),                # n == 0: ZeroDivisionError
+    ("b", "mod", ("k", 7), ("f", "m")),
+    ("i", ("f", "v"), ("k", 2)),                            # len(v) < 3: IndexError
+    ("i", ("f", "seq"), ("k", 1)),
+    ("b", "add", ("f", "o"), ("k", 1)),                     # o is None: TypeError
+    ("i", ("f", "ov"), ("k", 0)),
+    ("b", "floordiv", ("f", "a"), ("b", "and_", ("f", "b"), ("k", 1))),
+)
+
+
+def _copy_const(c):
+    if isinstance(c, list):
+        return list(c)
+    if isinstance(c, dict):
+        return dict(c)
+    return c
+
+
+def _has_nary(n):
+    """Does the tree contain a chooses / if_true_then_else node?"""
+    t = n[0]
+    if t in ("c", "t"):
+        return True
+    if t == "u":
+        return _has_nary(n[2])
+    if t == "b":
+        return _has_nary(n[2]) or _has_nary(n[3])
+    if t == "i":
+        return _has_nary(n[1]) or _has_nary(n[2])
+    if t == "s":
+        return _has_nary(n[1])
+    return False
+
+
+class TableGen:
+    """chooses / if_true_then_else trees over the whole space of forms x key types x selector types x option values."""
+
+    def __init__(self, rng):
+        self.rng = rng
+        self.gen = Gen(rng, p_ill=0.02)
+
+    # -- selectors -----------------------------------------------------------------------
+    def small_int(self, D=1):
+        r = self.rng
+        p = r.random()
+        if p < 0.45:
+            return ("f", r.choice(("n", "m", "bt1", "dl", "dz", "n", "m")))
+        if p < 0.70:
+            return ("b", "mod", ("f", r.choice(INT_LEAVES)), ("k", r.choice((2, 3, 4, 5))))
+        if p < 0.85:
+            return ("b", "and_", ("f", r.choice(("a", "b", "da", "du", "bt2", "bd2", "bd1"))), ("k", r.choice((1, 3, 7))))
+        if p < 0.92 and D > 0:
+            return self.label_selector("int", LABEL_POOLS["int"][:5], D - 1)
+        return ("i", ("f", "seq"), ("k", 0))
+
+    def bytes_sel(self):
+        r = self.rng
+        return r.choice((
+            ("s", ("f", "v"), 0, 1, None), ("s", ("f", "d"), 0, 1, None), ("s", ("f", "d"), 1, 2, None),
+            ("s", ("f", "d"), 0, 2, None), ("s", ("f", "d"), 1, 3, None), ("s", ("f", "d"), 2, 4, None),
+            ("s", ("f", "dd"), 0, 1, None), ("f", "dd"), ("f", "dd"), ("f", "v"), ("f", "v"), ("s", ("f", "v"), 0, 2, None),
+            ("b", "add", ("s", ("f", "d"), 0, 1, None), ("s", ("f", "dd"), 0, 1, None)),
+            ("s", ("f", "v"), 0, 0, None), ("f", "d"),
+        ))
+
+    def selector(self, kind, keys=(), D=1):
+        r = self.rng
+        if kind == "int":
+            return self.small_int(D)
+        if kind == "negint":
+            return r.choice((("f", "s"), ("b", "sub", self.small_int(0), ("k", r.choice((1, 2, 3, 5)))),
+                             ("u", "neg", self.small_int(0)), ("u", "inv", ("f", "bt1"))))
+        if kind == "bool":
+            return r.choice((("b", r.choice(CMP + EQ), self.small_int(0), ("k", r.choice((0, 1, 2)))),
+                             ("u", "truth", ("f", r.choice(("n", "m", "a", "o", "bt1")))),
+                             ("b", "eq", self.bytes_sel(), ("k", r.choice((b"a", b"ab", b"")))),
+                             ("b", "lt", ("f", "n"), ("f", "m"))))
+        if kind == "float":
+            return ("b", "truediv", self.small_int(0), ("k", r.choice((1, 1, 2, 2, 4))))
+        if kind == "bytes":
+            return self.bytes_sel()
+        if kind == "optint":
+            return ("f", "o")
+        if kind == "optbytes":
+            return r.choice((("f", "ov"), ("f", "ov"), ("s", ("f", "ov"), 0, 1, None)))
+        if kind == "byteval":
+            return ("i", ("f", r.choice(("d", "dd", "v"))), ("k", r.choice((0, 1))))
+        if kind == "list":
+            return r.choice((("f", "seq"), ("s", ("f", "seq"), 0, 1, None)))
+        assert kind.startswith("label:"), kind
+        lk = kind[6:]
+        pool = LABEL_POOLS[lk]
+        if lk == "twins":
+            mine = [k for k in keys if isinstance(k, (str, bytes))]
+        elif lk in ("str", "bytes"):
+            # the letters of the text keys in the type of the label: a label of the other text type must MISS
+            want_t = str if lk == "str" else bytes
+            mine = [k if type(k) is want_t else _twin(k) for k in keys if isinstance(k, (str, bytes))]
+        else:
+            mine = [k for k in keys if any(type(k) is type(p) for p in pool)]
+        return self.label_selector(lk, mine + [r.choice(pool)] + ([r.choice(pool)] if len(mine) < 2 else []), D - 1)
+
+    def label_selector(self, lk, labels, D):
+        """An inner table whose options are constants (the labels an outer table is keyed by): a multi-level table."""
+        r = self.rng
+        labels = list(labels)
+        how = r.choice(("list", "tuple", "pos", "dict", "dict", "kw", "ite", "ite", "cat"))
+        if how == "cat" and lk in ("str", "bytes", "twins"):
+            # (label + suffix): the outer keys are hit when they hold the concatenation
+            base = ("a", "b") if (lk == "str" or (lk == "twins" and r.random() < 0.5)) else (b"a", b"b")
+            inner = self.label_selector("str", base, D)
+            return ("b", "add", inner, ("k", r.choice(base)))
+        if how in ("ite", "cat"):
+            cond = self.selector(r.choice(("bool", "bool", "int", "bytes", "optint")), (), 0)
+            return ("t", r.choice(("list", "tuple", "pos")), cond, ("k", r.choice(labels)), ("k", r.choice(labels)))
+        if how in ("list", "tuple", "pos"):
+            opts = [("k", r.choice(labels)) for _ in range(r.choice((5, 5, 5, 4, 3, 2)))]
+            return ("c", how, self.small_int(D), opts)
+        if how == "dict":
+            keys = r.sample((0, 1, 2, 3, 4, 5, 7), r.choice((5, 5, 4, 3, 2)))
+            return ("c", "dict", self.small_int(D), [(k, ("k", r.choice(labels))) for k in keys])
+        names = r.sample(("a", "b", "ab", "aa", "ba", "bb"), r.randint(2, 5))
+        return ("c", "kw", self.bytes_sel(), [(nm.encode("ascii"), ("k", r.choice(labels))) for nm in names])
+
+    # -- keys ----------------------------------------------------------------------------
+    def keys(self, kind, n):
+        r = self.rng
+        if kind == "int":
+            pool = (0, 1, 2, 3, 4) if r.random() < 0.6 else (0, 1, 2, 3, 4, 5, 7, 255, 97, 98, 0x41)
+        elif kind == "negint":
+            pool = (-1, -2, -3, -4, -300, 0, 1, -8)
+        elif kind == "bool":
+            pool = (True, False)
+        elif kind == "boolint":
+            pool = (0, 1, True, False, 2)
+        elif kind == "float":
+            pool = (0.0, 0.5, 1.0, 2.0, 1.5, 1, 3)
+        elif kind == "bytes":
+            pool = BYTES_POOL[:8]
+        elif kind == "str":
+            pool = STR_POOL if r.random() < 0.3 else STR_POOL[:8]
+        elif kind == "twins":
+            base = r.sample(STR_POOL[:7], min(n, 3))
+            out = []
+            for s in base:
+                pair = [s, s.encode("ascii")]
+                r.shuffle(pair)
+                out.extend(pair if r.random() < 0.8 else pair[:1])
+            r.shuffle(out)
+            return out
+        elif kind == "tuple":
+            pool = TUPLE_POOL
+        elif kind == "none":
+            return [None] + r.sample((0, 1, b"", b"a", "", False, 97), max(n - 1, 1)) if r.random() < 0.8 else \
+                r.sample((0, 1, b"", b"a", "", False, 97), max(n - 1, 1)) + [None]
+        else:
+            pool = (0, 1, 2, -1, True, False, 0.5, 2.0, b"a", b"ab", b"", "a", "ab", "", (), (1,), ("a",), None, 97)
+        n = min(n, len(pool))
+        return r.sample(pool, n)
+
+    # -- option values -------------------------------------------------------------------
+    def value(self, D):
+        r = self.rng
+        p = r.random()
+        if p < 0.42:
+            return ("k", _copy_const(r.choice(VALUE_CONSTS[r.choice(CONST_KINDS)])))
+        if p < 0.60:
+            return ("f", r.choice(FIELD_NAMES))
+        if p < 0.74:
+            return self.gen.sub("ANY", r.choice((1, 1, 2)))
+        if p < 0.78:
+            return r.choice(MAY_RAISE)
+        if p < 0.83:
+            # an operator applied to the text / byte label picked by an inner table
+            lk = r.choice(("str", "bytes"))
+            inner = self.label_selector(lk, r.sample(LABEL_POOLS[lk], 3), 0)
+            return r.choice((("b", "add", inner, ("k", LABEL_POOLS[lk][1])), ("i", inner, ("k", 0)),
+                             ("u", "len", inner), ("b", "eq", inner, ("k", LABEL_POOLS[lk][2])), ("s", inner, 0, 1, None)))
+        if D <= 0:
+            return ("k", _copy_const(r.choice(VALUE_CONSTS[r.choice(CONST_KINDS)])))
+        if p < 0.92:
+            return self.total_table(D - 1)
+        if p < 0.96:
+            return self.table(D - 1)
+        return self.ite(D - 1)
+
+    # -- tables --------------------------------------------------------------------------
+    def table(self, D, form=None, keykind=None, value=None):
+        r = self.rng
+        value = value or self.value
+        if form is None:
+            form = r.choice(("dict", "dict", "dict", "kw", "list", "tuple", "pos"))
+        if form in ("list", "tuple", "pos"):
+            nopt = r.choice((2, 3, 4, 5, 5, 5) if form == "pos" else (1, 2, 3, 4, 5, 5, 5))
+            sel = self.selector(r.choice(SELECTORS_FOR["seq"]), range(nopt), D)
+            return ("c", form, sel, [value(D) for _ in range(nopt)])
+        if form == "kw":
+            names = r.sample(KW_POOL, r.randint(1, 5))
+            keys = [nm.encode("ascii") for nm in names]
+            sel = self.selector(r.choice(SELECTORS_FOR["kw"]), keys + names, D)
+            return ("c", "kw", sel, [(k, value(D)) for k in keys])
+        if keykind is None:
+            keykind = r.choice(KEYKINDS)
+        keys = self.keys(keykind, r.choice((1, 2, 3, 3, 4, 4, 5, 5)))
+        sel = self.selector(r.choice(SELECTORS_FOR[keykind]), keys, D)
+        opts = [(k, value(D)) for k in keys]
+        for idx, (k, o) in enumerate(opts):
+            # keys that are equal (1 / True / 1.0) collapse when Python builds the dict display, BEFORE bisturi is called:
+            # Python itself drops the value object of the earlier key and moves the later value to the earlier position.
+            # The values of such keys are constants here, so that neither is observable (a dropped / moved
+            # sub-expression would be evaluated, in source order, by the eager expression).
+            if o[0] != "k" and any(k == k2 for j, (k2, _) in enumerate(opts) if j != idx):
+                opts[idx] = (k, ("k", _copy_const(r.choice(VALUE_CONSTS[r.choice(CONST_KINDS)]))))
+        return ("c", "dict", sel, opts)
+
+    def total_table(self, D):
+        """A nested table whose selection cannot miss: (x % n) into n options, a comparison into {True: .., False: ..}."""
+        r = self.rng
+        how = r.choice(("list", "tuple", "pos", "dict", "dict"))
+        x = ("f", r.choice(("a", "b", "n", "m", "bt1", "bt2", "da", "du", "dl", "s")))
+        if how == "dict":
+            keys = [True, False] if r.random() < 0.5 else [False, True]
+            sel = ("b", r.choice(CMP + EQ), x, ("k", r.choice((0, 1, 2, 3, 64))))
+            return ("c", "dict", sel, [(k, self.value(D)) for k in keys])
+        nopt = r.randint(2, 4)
+        return ("c", how, ("b", "mod", x, ("k", nopt)), [self.value(D) for _ in range(nopt)])
+
+    def ite(self, D, value=None):
+        r = self.rng
+        value = value or self.value
+        cond = self.selector(r.choice(SELECTORS_FOR["cond"]), ("", "a", b"", b"a", (), (0,), None, 0, 1), D)
+        return ("t", r.choice(("list", "tuple", "pos", "pos")), cond, value(D), value(D))
+
+
+def _twin(k):
+    """The same letters in the other text type (str <-> bytes), or a marker nothing equals."""
+    if isinstance(k, str):
+        try:
+            return k.encode("ascii")
+        except UnicodeError:
+            return Unjudged
+    if isinstance(k, bytes):
+        try:
+            return k.decode("ascii")
+        except UnicodeError:
+            return Unjudged
+    return Unjudged
+
+
+def _typename(v):
+    return "none" if v is None else type(v).__name__
+
+
+def _value_kind(node):
+    return {"k": "const", "f": "field", "c": "chooses", "t": "ite"}.get(node[0], "subexpr")
+
+
+def table_facts(tree, vals):
+    """What the eager evaluation of a top-level chooses / if_true_then_else consists of - only to COUNT what was
+    exercised (never the oracle). Returns a list of fact names."""
+    facts = []
+    if tree[0] == "t":
+        try:
+            c = walk(tree[2], vals)
+        except Exception:
+            return ["ite_condition_raises"]
+        facts.append("ite_condition_" + _typename(c))
+        if not isinstance(c, bool):
+            facts.append("ite_nonbool_truthy_condition" if c else "ite_nonbool_falsy_condition")
+        picked = tree[3] if c else tree[4]
+        other = tree[4] if c else tree[3]
+        try:
+            walk(picked, vals)
+        except Exception:
+            return facts + ["ite_picked_alternative_raises"]
+        try:
+            walk(other, vals)
+        except Exception:
+            return facts + ["ite_unpicked_alternative_raises"]
+        return facts + ["ite_picked", "ite_picked_value_" + _value_kind(picked)]
+    if tree[0] != "c":
+        return facts
+    form = tree[1]
+    grp = "seq" if form in ("list", "tuple", "pos") else form
+    try:
+        sel = walk(tree[2], vals)
+    except Exception:
+        return [grp + "_selector_raises"]
+    multi = _has_nary(tree[2])
+    facts.append("selector_" + _typename(sel))
+    if multi:
+        facts.append("multilevel")
+    nodes = [(o[1] if grp != "seq" else o) for o in tree[3]]
+    keys = [o[0] for o in tree[3]] if grp != "seq" else None
+    # which option does the selection pick (None: the lookup itself raises)?
+    picked = None
+    verdict = None
+    if grp == "seq":
+        if not isinstance(sel, int):
+            verdict = "seq_nonint_selector"
+        elif not (-len(nodes) <= sel < len(nodes)):
+            verdict = "seq_indexerror"
+        else:
+            picked = sel % len(nodes)
+            verdict = "seq_selected"
+    else:
+        try:
+            hash(sel)
+        except TypeError:
+            verdict = grp + "_unhashable_selector"
+        else:
+            for idx, k in enumerate(keys):
+                if k == sel:
+                    picked = idx        # the last equal key holds the value (1 / True collapse in a dict display)
+            verdict = (grp + "_hit") if picked is not None else (grp + "_miss_keyerror")
+    for idx, node in enumerate(nodes):
+        try:
+            walk(node, vals)
+        except Exception:
+            facts.append("option_raises")
+            if picked is not None and picked != idx:
+                facts.append("unselected_option_raises")
+            return facts
+    if grp == "kw" and isinstance(sel, str):
+        return facts + ["kw_text_selector"]
+    facts.append(verdict)
+    facts.append("form_" + form)
+    if picked is None:
+        if grp != "seq" and verdict.endswith("_miss_keyerror"):
+            tw = _twin(sel)
+            if isinstance(sel, bytes) and any(type(k) is str and k == tw for k in keys):
+                facts.append(grp + "_bytes_selector_str_key_miss")
+            if isinstance(sel, str) and any(type(k) is bytes and k == tw for k in keys):
+                facts.append(grp + "_str_selector_bytes_key_miss")
+        if verdict == "seq_nonint_selector":
+            facts.append("seq_nonint_selector_" + _typename(sel))
+        return facts
+    facts.append("selected_value_" + _value_kind(nodes[picked]))
+    if multi:
+        facts.append("multilevel_selected")
+    if grp == "seq":
+        if isinstance(sel, bool):
+            facts.append("seq_bool_index")
+        elif sel < 0:
+            facts.append("seq_negative_index")
+        return facts
+    key = [k for k in keys if k == sel][0]
+    facts.append("%s_hit_%s" % (grp, _typename(key)))
+    if type(key) is not type(sel) or any(type(k) is not type(key) for k in keys if k == sel):
+        facts.append(grp + "_hit_cross_type")           # 1 / True / 1.0 coincidences
+    if isinstance(key, int) and not isinstance(key, bool) and key < 0:
+        facts.append(grp + "_hit_negative")
+    if isinstance(key, (str, bytes)) and any(type(k) is not type(key) and k == _twin(key) for k in keys):
+        facts.append(grp + "_hit_with_twin")            # b'ab' and 'ab' both present: the right one was picked
+    if multi and isinstance(key, (str, bytes, tuple)) or (multi and key is None):
+        facts.append("multilevel_%s_label_hit" % _typename(key))
+    return facts
+
+
+P1C_REQUIRED = (
+    "p1c_tables_evaluated", "p1c_values_compared", "p1c_exceptions_compared",
+    "p1c_dict_hit_str", "p1c_dict_hit_bytes", "p1c_dict_hit_int", "p1c_dict_hit_negative", "p1c_dict_hit_bool",
+    "p1c_dict_hit_float", "p1c_dict_hit_tuple", "p1c_dict_hit_none", "p1c_dict_hit_cross_type", "p1c_dict_hit_with_twin",
+    "p1c_dict_bytes_selector_str_key_miss", "p1c_dict_str_selector_bytes_key_miss", "p1c_dict_miss_keyerror",
+    "p1c_dict_unhashable_selector", "p1c_kw_hit", "p1c_kw_miss_keyerror",
+    "p1c_seq_selected", "p1c_seq_negative_index", "p1c_seq_bool_index", "p1c_seq_indexerror", "p1c_seq_nonint_selector",
+    "p1c_multilevel_selected", "p1c_multilevel_str_label_hit", "p1c_multilevel_bytes_label_hit",
+    "p1c_multilevel_tuple_label_hit", "p1c_multilevel_none_label_hit",
+    "p1c_unselected_option_raises",
+    "p1c_selected_value_const", "p1c_selected_value_field", "p1c_selected_value_subexpr", "p1c_selected_value_chooses",
+    "p1c_selected_value_ite",
+    "p1c_ite_picked", "p1c_ite_nonbool_falsy_condition", "p1c_ite_unpicked_alternative_raises",
+    "p1c_evaluations_after_raise",
+    "p2c_size_checked", "p2c_multilevel_size_checked", "p2c_lookup_error_as_packeterror", "p2c_when_checked",
+    # keyword names equal to parameter names of bisturi's own closures (F20: the keyword A)
+    "p1c_keyword_parameter_names_agreeing", "p1c_keyword_parameter_name_hits", "p1c_keyword_name_A_hits",
+    "p2c_keyword_parameter_name_sizes_checked",
+)
+REQUIRED = REQUIRED + P1C_REQUIRED
+
+
+def _cands(run, rng, cls, ninputs):
+    cands = []
+    for _ in range(ninputs):
+        raw, vals = make_full_input(rng)
+        try:
+            pkt = cls.unpack(raw)
+        except Exception as e:
+            run.count("harness_operand_unpack_failed")
+            run.inconclusive_because("operand-class-unpack-failed:%s" % type(e).__name__)
+            continue
+        parsed = parsed_values(pkt)
+        if parsed != vals:
+            run.count("harness_parsed_differs_from_encoded")
+            run.inconclusive_because("operand-class-parsed-values-differ-from-encoded")
+        for nm in DESCRIBED:
+            parsed[nm] = vals[nm]
+        cands.append((raw, parsed, pkt))
+    return cands
+
+
+def part1c(run, rng, classes, ntrees, ninputs):
+    """Tables: every form of chooses (dict, keyword, list, tuple, positional) and if_true_then_else x key types
+    x selector types (fields, comparisons, byte strings, optional fields, labels picked by inner tables) x option
+    values (constants of every type, fields, sub-expressions, nested tables), compiled once and called as a history."""
+    import bisturi.deferred as bd
+    import bisturi.structural_fields as bs
+    from bisturi.field import Field
+    expr_types = (bd.UnaryExpr, bd.BinaryExpr, bd.NaryExpr)
+    compilers = (("compile_expr_into_callable", bd.compile_expr_into_callable),
+                 ("normalize_raw_condition_into_a_callable", bs.normalize_raw_condition_into_a_callable),
+                 ("normalize_count_condition_into_a_callable", bs.normalize_count_condition_into_a_callable))
+    tg = TableGen(rng)
+    envs = [(name, opts, cls, field_env(cls)) for name, opts, cls in classes]
+    samples = 0
+    kw_text_outcomes = {}
+
+    def compile_tree(dsrc, env, cn, compiler, w):
+        try:
+            built = eval(compile(dsrc, "<c09-expr>", "eval"), dict(env))
+        except Exception as e:
+            run.case(key=key_of(dsrc))
+            run.violation("an expression over fields with supported operators was rejected when written "
+                          "(%s: %s)" % (type(e).__name__, str(e)[:120]), w)
+            return None
+        if not isinstance(built, expr_types + (Field,)):
+            run.count("harness_built_object_not_deferred")
+            run.inconclusive_because("generator-produced-non-deferred-expression")
+            return None
+        try:
+            return compiler(built)
+        except Exception as e:
+            run.case(key=key_of(dsrc))
+            run.violation("%s raised %s on a well-formed expression tree" % (cn, type(e).__name__),
+                          dict(w, error=str(e)[:200]))
+            return None
+
+    for i in range(ntrees):
+        if run.counters["violations"] > 20:
+            break
+        form = TABLE_FORMS[i % len(TABLE_FORMS)]
+        D = 1 + (i // len(TABLE_FORMS)) % 2
+        if form == "ite":
+            tree = tg.ite(D)
+        else:
+            keykind = KEYKINDS[(i // len(TABLE_FORMS)) % len(KEYKINDS)] if form == "dict" else None
+            tree = tg.table(D, form, keykind)
+        if rng.random() < 0.08:
+            # the table as an operand of a further operator
+            tree = rng.choice((("b", "eq", tree, ("k", rng.choice((1, "a", b"a", None)))),
+                               ("b", "add", tree, ("k", rng.choice((1, "a", b"a")))),
+                               ("i", tree, ("k", 0)), ("u", "truth", tree)))
+        dsrc, psrc = render_def(tree), render_py(tree)
+        cname, copts, cls, env = envs[i % len(envs)]
+        cn, compiler = compilers[0] if i % 4 < 2 else compilers[1 + (i % 2)]
+        run.count("p1c_trees")
+        w = {"part": "1", "subpart": "1c", "operand_class": class_src(cname, copts), "expression": dsrc,
+             "eager_python": psrc, "option_set": cname}
+        f = compile_tree(dsrc, env, cn, compiler, w)
+        if f is None:
+            continue
+        pcode = compile(psrc, "<c09-py>", "eval")
+        hist = []
+        unjudged = []
+        for c in _cands(run, rng, cls, ninputs):
+            try:
+                want = eager(tree, c[1])
+            except Unjudged:
+                unjudged.append(c)
+                continue
+            except Skip as sk:
+                run.count("guard_skipped")
+                run.count("guard_skipped_" + str(sk))
+                continue
+            if not same_outcome(want, eager_from_source(pcode, c[1])):
+                run.count("harness_oracle_self_disagreement")
+                run.inconclusive_because("oracle-walk-vs-python-source-disagree: %s" % psrc[:150])
+                continue
+            hist.append((c, want))
+        for raw, parsed, pkt in unjudged:
+            # keyword names against a TEXT selector: observed and counted, not judged
+            try:
+                f(pkt=pkt)
+                o = "a value (the name matched)"
+            except Exception as e:
+                o = type(e).__name__
+            run.count("p1c_kw_text_selector_not_judged")
+            kw_text_outcomes[o] = kw_text_outcomes.get(o, 0) + 1
+        hist.sort(key=lambda h: 0 if h[1][0] == "exc" else 1)
+        if len(hist) >= 2:
+            hist.append(hist[0])
+        raised_before = False
+        before = []
+        evaluated = 0
+        top = tree if tree[0] in ("c", "t") else None
+        for j, (c, want) in enumerate(hist):
+            raw, parsed, pkt = c
+            try:
+                got = ("val", f(pkt=pkt, raw=raw, offset=0, root=pkt) if j % 2 else f(pkt=pkt))
+            except Exception as e:
+                got = ("exc", type(e))
+            evaluated += 1
+            if not same_outcome(want, got):
+                what = ("compiled chooses / if_true_then_else table and eager Python evaluation disagree (value/type)"
+                        if want[0] == got[0] == "val" else
+                        "compiled chooses / if_true_then_else table and eager Python evaluation disagree (exception behaviour)")
+                run.violation(what, dict(w, raw=raw, fields=parsed, compiled_with=cn, evaluated_before=list(before),
+                                         expected=show(want), got=show(got)))
+                break
+            run.count("p1c_values_compared" if want[0] == "val" else "p1c_exceptions_compared")
+            if want[0] == "val":
+                run.cover("p1c_result_types", _typename(want[1]))
+            else:
+                run.cover("p1c_exception_types", want[1].__name__)
+            if raised_before:
+                run.count("p1c_evaluations_after_raise")
+            if top is not None:
+                run.count("p1c_tables_evaluated")
+                for fact in table_facts(top, parsed):
+                    if fact.startswith(("selector_", "ite_condition_", "seq_nonint_selector_", "form_")):
+                        run.cover("p1c_" + fact.rsplit("_", 1)[0] + "s", fact.rsplit("_", 1)[1])
+                    else:
+                        run.count("p1c_" + fact)
+            if samples < 2 and j == 0 and i % 1500 == 11:
+                samples += 1
+                run.sample({"part": "1c", "expression": dsrc, "eager_python": psrc, "raw": raw, "fields": parsed,
+                            "result": show(got)})
+            if want[0] == "exc":
+                raised_before = True
+            before.append(raw)
+        if evaluated:
+            run.case(key=key_of(dsrc), nontrivial=True, n=evaluated)
+    run.extra["p1c_kw_text_selector_library_outcomes"] = dict(sorted(kw_text_outcomes.items()))
+
+
+KW_PARAMETER_NAMES = ("A", "B", "C", "self", "cls", "op", "index", "options", "methodname", "target")
+KW_NAME_MECH = "kw-name-collides-with-nary-parameter"
+D_OFFSET = 13       # a b s s bits bits n m dl da du du dz | d
+
+
+def part1c_keyword_names(run, rng, classes):
+    """Keyword names that are valid Python names but happen to be the names bisturi's own functions use for their
+    parameters (F20: `def nary(A, *B, **C)` rejected the keyword A): per the docs any pool of valid Python names can be
+    written as keywords, meaning {b'<name>': ..}[selector]. Compiled expression and a real `Data(<table>)` declaration."""
+    from .. import common
+    import bisturi.deferred as bd
+    scratch = common.scratch_dir("bvf_c09k_")
+    try:
+        for ci, (cname, copts, cls) in enumerate(classes):
+            env = field_env(cls)
+            for nm in KW_PARAMETER_NAMES:
+                key = nm.encode("ascii")
+                tree = ("c", "kw", ("s", ("f", "d"), 0, min(len(nm), 4), None),
+                        [(key, ("b", "and_", ("f", "a"), ("k", 3))), (b"zz", ("k", 2)), (b"ab", ("k", 1))])
+                dsrc, psrc = render_def(tree), render_py(tree)
+                w = {"part": "1", "subpart": "1c-keyword-names", "operand_class": class_src(cname, copts),
+                     "expression": dsrc, "eager_python": psrc, "option_set": cname}
+                pname = "PK%d_%s" % (ci, nm)
+                psrc_cls = class_src(pname, copts, "    x = Data(%s)\n" % dsrc)
+                inputs = []
+                for k in range(3):
+                    raw0, vals = make_input(rng)
+                    if k == 0:      # a packet whose field d starts with the keyword name: the lookup must hit
+                        pad = (key + b"abab")[:4]
+                        raw0 = raw0[:D_OFFSET] + pad + raw0[D_OFFSET + 4:]
+                        vals = dict(vals, d=pad)
+                    inputs.append((raw0 + bytes(rng.randrange(256) for _ in range(TAIL)), vals))
+                run.count("p1c_keyword_parameter_names_probed")
+                # (1) the compiled expression
+                err = ""
+                f = None
+                try:
+                    f = bd.compile_expr_into_callable(eval(compile(dsrc, "<c09-expr>", "eval"), dict(env)))
+                except Exception as e:
+                    err = "%s: %s" % (type(e).__name__, str(e)[:160])
+                    built = ("exc", type(e))
+                for raw, vals in inputs:
+                    want = eager(tree, vals)
+                    if f is None:
+                        got = built
+                    else:
+                        try:
+                            pkt = cls.unpack(raw)
+                            if pkt.d != vals["d"]:
+                                run.inconclusive_because("keyword-name-probe-input-layout")
+                                break
+                            got = ("val", f(pkt=pkt))
+                        except Exception as e:
+                            got = ("exc", type(e))
+                    run.case(key=key_of(dsrc), nontrivial=True)
+                    if same_outcome(want, got):
+                        run.count("p1c_keyword_parameter_names_agreeing")
+                        if want[0] == "val":
+                            run.count("p1c_keyword_parameter_name_hits")
+                            if nm == "A":
+                                run.count("p1c_keyword_name_A_hits")
+                        continue
+                    run.violation("a keyword-form table whose keyword is the valid Python name %r does not mean "
+                                  "{%r: ..}[selector]%s" % (nm, key, (" (rejected when written: %s)" % err) if err else ""),
+                                  dict(w, raw=raw, fields=vals, expected=show(want), got=show(got)),
+                                  mech=KW_NAME_MECH if (f is None or nm == "A") else None)
+                    break
+                # (2) the same table as the size of a Data field in a real class body
+                w2 = {"part": "2", "subpart": "2c-keyword-names", "class_source": HEADER + psrc_cls, "expression": dsrc,
+                      "eager_python": psrc}
+                try:
+                    pcls = define(HEADER + psrc_cls, scratch, "exec")[pname]
+                except Exception as e:
+                    run.case(key=key_of(psrc_cls))
+                    run.violation("class definition with the keyword %r in a keyword-form table raised %s" % (nm, type(e).__name__),
+                                  dict(w2, error=str(e)[:200]), mech=KW_NAME_MECH)
+                    continue
+                for raw, vals in inputs:
+                    run.case(key=key_of(psrc_cls), nontrivial=True)
+                    st = judge_placement(run, "size", "x", observe_unpack(pcls, raw), eager(tree, vals),
+                                         dict(w2, raw=raw, unpacked_before=[]), vals)
+                    if st == "value":
+                        run.count("p2c_keyword_parameter_name_sizes_checked")
+                    elif st == "violation":
+                        break
+    finally:
+        common.drop_scratch(scratch)
+
+
+def part1c_unjudged_forms(run, classes):
+    """Forms whose meaning neither the statement nor the docs fix: what the library does is recorded, never judged."""
+    import bisturi.deferred as bd
+    cname, copts, cls = classes[0]
+    env = field_env(cls)
+    raw, _ = make_full_input(rng_for(0, "c09-unjudged", 0))
+    pkt = cls.unpack(raw)
+    for src in ("n.chooses([])", "n.chooses({})", "n.chooses(5)", "n.chooses(m + 1)", "v.chooses(**{'\xe9': 1, 'b': 2})",
+                "n.if_true_then_else(1, 2, 3)", "n.if_true_then_else([1])", "n.if_true_then_else({1: 2, 3: 4})",
+                "n.if_true_then_else(x=1, y=2)"):
+        try:
+            built = eval(src, dict(env))
+        except Exception as e:
+            out = "rejected when written (%s)" % type(e).__name__
+        else:
+            try:
+                out = "evaluates to a %s" % type(bd.compile_expr_into_callable(built)(pkt=pkt)).__name__
+            except Exception as e:
+                out = "raises %s when evaluated" % type(e).__name__
+        run.count("p1c_unjudged_forms_observed")
+        run.cover("p1c_unjudged_forms_observed", "%s: %s" % (src, out))
+
+
+def part2c(run, rng, ntrees, ninputs, tag):
+    """Tables placed in real declarations: multi-level tables as a Data size (a missing key / index out of range must be a
+    PacketError) and tables of any value type as a when-condition (truthiness of the selected value)."""
+    from .. import common
+    tg = TableGen(rng)
+    scratch = common.scratch_dir("bvf_c09c_")
+
+    def size_value(D):
+        p = rng.random()
+        if p < 0.6:
+            return ("k", rng.choice((0, 1, 2, 3, 4, 4)))
+        if p < 0.8:
+            return ("f", rng.choice(("n", "m", "bt1")))
+        if p < 0.9:
+            return ("b", "add", ("f", rng.choice(("n", "m"))), ("k", 1))
+        return ("b", "floordiv", ("k", 4), ("f", "n"))     # n == 0: every option is evaluated, ZeroDivisionError
+
+    try:
+        items = []
+        for i in range(ntrees):
+            place = "size" if i % 3 != 2 else "when"
+            if place == "size":
+                keykind = ("str", "str", "bytes", "twins", "tuple", "none", "int", "boolint", "negint", "twins")[(i // 3) % 10]
+                form = ("dict", "dict", "dict", "kw", "list", "pos")[(i // 3) % 6]
+                tree = tg.table(1, form, keykind, value=size_value)
+            else:
+                tree = tg.table(1) if i % 2 else tg.ite(1)
+            oname, oopts = OPTION_SETS[i % len(OPTION_SETS)]
+            name = "PC%s_%d_%s" % (tag, i, place)
+            dsrc, psrc = render_def(tree), render_py(tree)
+            src = class_src(name, oopts, dict(PLACEMENTS)[place] % ("x", dsrc))
+            items.append({"tree": tree, "dsrc": dsrc, "psrc": psrc, "name": name, "src": src, "place": place})
+        for b0 in range(0, len(items), 10):
+            batch = items[b0:b0 + 10]
+            mode = "file" if (b0 // 10) % 4 == 1 else "exec"
+            try:
+                ns = define(HEADER + "".join(it["src"] for it in batch), scratch, mode)
+            except Exception:
+                ns = {}
+                for it in batch:
+                    try:
+                        ns.update(define(HEADER + it["src"], scratch, "exec"))
+                    except Exception as e:
+                        run.case(key=key_of(it["dsrc"] + it["place"]))
+                        run.violation("class definition with a chooses / if_true_then_else table as %s raised %s"
+                                      % (it["place"], type(e).__name__),
+                                      {"part": "2", "placement": it["place"], "class_source": HEADER + it["src"],
+                                       "expression": it["dsrc"], "error": str(e)[:200]})
+            for it in batch:
+                cls = ns.get(it["name"])
+                if cls is None:
+                    continue
+                run.count("p2c_classes")
+                plan = []
+                for _ in range(ninputs):
+                    raw0, vals = make_input(rng)
+                    raw = raw0 + bytes(rng.randrange(256) for _ in range(2 * TAIL + 4))
+                    try:
+                        want = eager(it["tree"], vals)
+                    except Skip:
+                        run.count("p2c_inputs_not_judged")
+                        continue
+                    plan.append((raw, vals, want))
+                plan.sort(key=lambda q: 0 if _fails_somewhere(q[2]) else 1)
+                if len(plan) >= 2:
+                    plan.append(plan[0])
+                before = []
+                multi = it["tree"][0] == "c" and _has_nary(it["tree"][2])
+                for raw, vals, want in plan:
+                    w = {"part": "2", "subpart": "2c", "class_source": HEADER + it["src"], "expression": it["dsrc"],
+                         "eager_python": it["psrc"], "raw": raw, "unpacked_before": list(before)}
+                    st = judge_placement(run, it["place"], "x", observe_unpack(cls, raw), want, w, vals)
+                    before.append(raw)
+                    if st == "violation":
+                        break
+                    if st == "value":
+                        run.count("p2c_%s_checked" % it["place"])
+                        if multi and it["place"] == "size":
+                            run.count("p2c_multilevel_size_checked")
+                    elif st == "error" and want[0] == "exc":
+                        run.count("p2c_expression_exception_as_packeterror")
+                        if want[1] in (KeyError, IndexError):
+                            run.count("p2c_lookup_error_as_packeterror")
+                if plan:
+                    run.case(key="2c:" + key_of(it["dsrc"] + it["place"]), nontrivial=True, n=len(plan))
+    finally:
+        common.drop_scratch(scratch)
+
+
+# ------------------------------------------------------------------------------------------
 def define_operand_classes(run, scratch):
     src = HEADER + "".join(class_src("Ops_%s" % nm, opts) for nm, opts in OPTION_SETS)
     ns = define(src, scratch, "file")
@@ -1693,6 +2526,12 @@ def run(run):
             n2, d2 = 350, 4
         part1(run, rng, classes, ntrees, maxdepth, ninputs, 0.3)
         part1b(run, rng_for(run.seed, "c09-1b", shard), classes, 150 if quick else 400)
+        t0 = time.time()
+        part1c(run, rng_for(run.seed, "c09-1c", shard), classes, 12000 if quick else 30000, 3)
+        part1c_keyword_names(run, rng_for(run.seed, "c09-1ck", shard), classes)
+        part1c_unjudged_forms(run, classes)
+        part2c(run, rng_for(run.seed, "c09-2c", shard), 150 if quick else 300, 6, "s%d" % shard)
+        run.extra["p1c_p2c_cpu_wall_s"] = round(time.time() - t0, 1)
         part2(run, rng_for(run.seed, "c09-2", shard), n2, d2, 6, "s%d" % shard, 0.5)
         run.extra["max_nesting_depth"] = maxdepth
     finally:
